@@ -100,6 +100,7 @@ func execPlan(t *testing.T, ck *Check, plan *sim.Plan) (*sim.Outcome, []sim.Viol
 		return out, nil, "no history"
 	}
 	vs := ck.Oracle(plan, out)
+	vs = append(vs, harvestRaces()...)
 	return out, vs, inconcl
 }
 
